@@ -83,10 +83,201 @@ def r14_1_2_5(prog, tab):
     return [r1, r2, r5]
 
 
+def r14_8(prog, tab, summ=None):
+    """A local structure that the function itself empties somewhere is emptied on every way out.  Belief rule: if a
+    function releases the contents of a local (non-pointer) structure object X -- ASN_STRUCT_FREE_CONTENTS_ONLY(.., &X),
+    a free_struct(.., &X, method != FREE_EVERYTHING) or free(X.field) -- it believes X can own heap memory after the
+    calls that were handed &X (directly or through a local pointer initialised with &X).  Then every path from each
+    such call to a return must pass a release of X."""
+    from .c15 import must_pass
+    r = Rule("R14.8", "a local structure whose contents the function releases somewhere is released on every path from each call that may fill it to a return", floor=8)
+    exc = {(x["rule"], x["function"], x["key"]): x["reason"] for x in tab.get("exceptions", [])}
+    for f in sorted(prog.funcs.values(), key=lambda f: f.key):
+        if common.is_random_fill(prog, f):
+            continue
+        locals_ = {}
+        for b, i, e in f.events("decl"):
+            t = e.get("type", "")
+            if "*" in t or e.get("is_array") or e.get("static_local"):
+                continue
+            if t.endswith("_t") or t.startswith("struct "):
+                locals_[e["id"]] = t
+        if not locals_:
+            continue
+        # pointers initialised / assigned with &X
+        alias = {}
+        for b, i, e in f.events():
+            tree = tgt = None
+            if e["k"] == "decl" and "init" in e:
+                tgt, tree = e["id"], e["init"]["tree"]
+            elif e["k"] == "assign" and e.get("op") == "=" and e.get("lhs") == e.get("base") and "rhs" in e:
+                tgt, tree = e.get("base_id"), e["rhs"]["tree"]
+            if tree is None:
+                continue
+            t = strip_casts(tree)
+            if isinstance(t, list) and t and t[0] == "un" and t[1] == "&" and is_var(t[2]) and strip_casts(t[2])[1] in locals_:
+                alias[tgt] = strip_casts(t[2])[1]
+
+        def mentions_addr(tree, X):
+            for n in walk(tree):
+                if n[0] == "un" and n[1] == "&" and is_var(n[2]):
+                    v = strip_casts(n[2])[1]
+                    if v == X or alias.get(v) == X:
+                        return True
+                if n[0] == "var" and alias.get(n[1]) == X:
+                    return True
+            return False
+
+        def is_release(x, X):
+            if x["k"] != "call":
+                return False
+            cal = x.get("callee")
+            if cal in ("free",):
+                return any(n[0] == "member" and is_var(n[1], X) for a in x.get("args", []) for n in walk(a.get("tree")))
+            if x.get("slot") == "free_struct" or (cal or "").endswith("_free"):
+                return any(mentions_addr(a.get("tree"), X) for a in x.get("args", []))
+            return False
+        for X, typ in sorted(locals_.items()):
+            rel = [(b, i, x) for b, i, x in f.calls() if is_release(x, X)]
+            if not rel:
+                continue
+            fills = [(b, i, x) for b, i, x in f.calls() if not is_release(x, X) and x.get("callee") not in ("memset", "memcpy", "__assert_fail")
+                     and any(mentions_addr(a.get("tree"), X) for a in x.get("args", []))]
+            # blocks where the obligation is settled: a release call, a hand-over of X's fields (`st->buf = X.buf`, `*st = X`),
+            # or a branch on one of X's fields that guards a release (nothing to release on the other edge)
+            def hands_over(y):
+                if y["k"] != "assign" or "rhs" not in y or y.get("base_id") == X:
+                    return False
+                return any((n[0] == "member" and is_var(n[1], X)) or is_var(n, X) for n in [strip_casts(y["rhs"]["tree"])] + list(walk(y["rhs"]["tree"])))
+
+            def settles(y):
+                return is_release(y, X) or hands_over(y)
+            guard_blocks = set()
+            for gb in f.blocks.values():
+                if gb.term and "cond" in gb.term and any(n[0] == "member" and is_var(n[1], X) for n in walk(gb.term["cond"].get("full_tree") or gb.term["cond"]["tree"])):
+                    if any(s_ is not None and any(is_release(y, X) for y in f.blocks[s_].ev) for s_ in gb.succ):
+                        guard_blocks.add(gb.id)
+
+            def leaks_from(starts, rb, ri):
+                """is (rb, ri) reachable from the start blocks without passing a settling event or a guard block?"""
+                st_, seen_ = list(starts), set()
+                while st_:
+                    bid = st_.pop()
+                    if bid in seen_ or bid is None:
+                        continue
+                    seen_.add(bid)
+                    blk = f.blocks[bid]
+                    evs = blk.ev[:ri] if bid == rb.id else blk.ev
+                    if any(settles(y) for y in evs):
+                        continue
+                    if bid == rb.id:
+                        return True
+                    if bid in guard_blocks:
+                        continue
+                    st_.extend(blk.succs())
+                return False
+            n = 0
+            for b, i, x in sorted(fills, key=lambda z: (z[2].get("line") or 0, z[0].id, z[1])):
+                n += 1
+                key = "%s:%s#%d" % (X.split("@")[0], x.get("callee") or ("->" + x["slot"] if x.get("slot") else "indirect"), n)
+                bad = None
+                # an int-returning filler tested in place: on its failure edge (non-zero) it has left nothing behind
+                starts = list(b.succs())
+                if not x.get("ret_type", "").rstrip().endswith("*") and "rval" not in x.get("ret_type", "") and x.get("ret_type", "") != "void":
+                    # follow the straight line to the branch that tests this very call (directly, or as an arm of ?:)
+                    cur, hops = b, 0
+                    while cur is not None and hops < 4:
+                        if cur.term and "cond" in cur.term and len(cur.succ) >= 2:
+                            ct = strip_casts(cur.term["cond"].get("full_tree") or cur.term["cond"]["tree"])
+                            direct = isinstance(ct, list) and ct and ((ct[0] in ("call", "icall") and ct[1] == x.get("id")) or
+                                                                      (ct[0] == "cond" and any(isinstance(a, list) and strip_casts(a) and strip_casts(a)[0] in ("call", "icall")
+                                                                                               and strip_casts(a)[1] == x.get("id") for a in ct[2:4])))
+                            if direct:
+                                starts = [cur.succ[1]]
+                            break
+                        nxt = cur.succs()
+                        cur = f.blocks[nxt[0]] if len(nxt) == 1 else None
+                        hops += 1
+                for rb, ri, re_ in f.returns():
+                    if rb.id == b.id and ri > i:
+                        if not any(settles(y) for y in b.ev[i + 1:ri]):
+                            bad = re_
+                            break
+                        continue
+                    if any(settles(y) for y in b.ev[i + 1:]) or b.id in guard_blocks:
+                        continue
+                    if leaks_from(starts, rb, ri):
+                        bad = re_
+                        break
+                ek = ("R14.8", f.name, key)
+                if bad is None:
+                    r.ok(f, key, "every path to a return passes a release (or hand-over) of %s" % X.split("@")[0], x["line"])
+                elif ek in exc:
+                    r.exc(f, key, exc[ek], x["line"])
+                else:
+                    r.bad(f, key, "after this call was handed &%s, the return at line %s is reachable without releasing the contents of %s "
+                                  "(which the function releases elsewhere): what the call allocated into it leaks" % (X.split("@")[0], bad.get("line"), X.split("@")[0]), x["line"])
+    return r
+
+
+def r14_9(prog, tab):
+    """Cleanup of a zero-initialised slot array covers every slot.  A slot-array releaser is a function that frees
+    `p[i].field` for i below an integer parameter and then p itself.  Where the array handed to it was obtained from
+    calloc(N, ...) in the same function, the bound passed must be that N: the unused slots are zero (free(NULL) is
+    harmless), while any smaller bound -- typically the progress counter of the filling loop -- skips the slot that
+    was being filled when the failure happened."""
+    r = Rule("R14.9", "a calloc'ed slot array is released over its whole allocated count, not over a progress counter", floor=1)
+    # releasers
+    rel = {}
+    for f in prog.funcs.values():
+        if len(f.params) != 2 or "*" not in f.params[0]["type"]:
+            continue
+        p0, p1 = f.params[0]["id"], f.params[1]["id"]
+        frees_elem = frees_arr = False
+        for b, i, e in f.calls():
+            if e.get("callee") != "free" or not e["args"]:
+                continue
+            t = strip_casts(e["args"][0]["tree"])
+            if is_var(t, p0):
+                frees_arr = True
+            elif isinstance(t, list) and t and t[0] == "member" and any(n[0] == "sub" and is_var(n[1], p0) for n in walk(t)):
+                frees_elem = True
+        bounded = any(bl.term and "cond" in bl.term and any(n[0] == "var" and n[1] == p1 for n in walk(bl.term["cond"]["tree"])) for bl in f.blocks.values())
+        if frees_elem and frees_arr and bounded:
+            rel[f.name] = f
+    r.note("slot-array releasers: %s" % sorted(rel))
+    for f in sorted(prog.funcs.values(), key=lambda f: f.key):
+        allocs = {}
+        for b, i, e in f.calls():
+            if e.get("callee") == "calloc" and e.get("use") in ("assigned", "init") and len(e["args"]) == 2:
+                ui = e.get("useinfo", {})
+                v = ui.get("var") or (strip_casts(ui["lhs_tree"])[1] if ui.get("lhs_tree") is not None and is_var(ui["lhs_tree"]) else None)
+                if v:
+                    allocs[v] = tree_text(strip_casts(e["args"][0]["tree"]))
+        if not allocs:
+            continue
+        n = 0
+        for b, i, e in sorted(f.calls(), key=lambda z: (z[2].get("line") or 0)):
+            if e.get("callee") not in rel or len(e["args"]) != 2:
+                continue
+            a0 = strip_casts(e["args"][0]["tree"])
+            if not is_var(a0) or a0[1] not in allocs:
+                continue
+            n += 1
+            key = "%s(%s)#%d" % (e["callee"], a0[1].split("@")[0], n)
+            bound = tree_text(strip_casts(e["args"][1]["tree"]))
+            if bound == allocs[a0[1]]:
+                r.ok(f, key, "released over the allocated count `%s`" % bound, e["line"])
+            else:
+                r.bad(f, key, "the array was obtained from calloc(%s, ...) but is released over `%s`: the slot that was being filled when the "
+                              "failure happened is skipped and its buffer leaks" % (allocs[a0[1]], bound), e["line"])
+    return r
+
+
 def run(ctx):
     prog = ctx.prog("S")
     tab = load_tables("c14")
-    return r14_1_2_5(prog, tab) + [r14_3(prog, tab), r14_4(prog, tab), r14_6(prog, tab), r14_7(prog, tab)]
+    return r14_1_2_5(prog, tab) + [r14_3(prog, tab), r14_4(prog, tab), r14_6(prog, tab), r14_7(prog, tab), r14_8(prog, tab), r14_9(prog, tab)]
 
 
 def thorough(ctx):
@@ -318,6 +509,35 @@ def r14_6(prog, tab, summ=None):
                 if ai >= len(e["args"]):
                     continue
                 t = strip_casts(e["args"][ai]["tree"])
+                via = None
+                if is_var(t) and t[2] == "local":
+                    # a local that is nothing but a copy of a persistent lvalue (`preamble = ctx->ptr`): freeing it frees that
+                    srcs = set()
+                    for b2, i2, d in f.events():
+                        tr = None
+                        if d["k"] == "decl" and d.get("id") == t[1] and "init" in d:
+                            tr = d["init"]["tree"]
+                        elif d["k"] == "assign" and d.get("base_id") == t[1] and d.get("lhs") == d.get("base") and not d.get("deref") and d.get("op") == "=" and "rhs" in d:
+                            tr = d["rhs"]["tree"]
+                        if tr is not None:
+                            srcs.add(tree_text(strip_casts(tr)))
+                            src_tree = strip_casts(tr)
+                    if len(srcs) == 1 and isinstance(src_tree, list) and src_tree[0] == "member" and src_tree[3]:
+                        # `b = st->buf; st->buf = p; free(b)`: the holder was already given a new value after the copy
+                        ltxt = tree_text(src_tree)
+                        reassigned = False
+                        for b2, i2, d in f.events():
+                            if d["k"] in ("decl", "assign") and (d.get("id") == t[1] or d.get("base_id") == t[1]):
+                                if b2.id == b.id and i2 < i:
+                                    reassigned = any(y["k"] == "assign" and y.get("op") == "=" and y.get("lhs_tree") is not None
+                                                     and tree_text(strip_casts(y["lhs_tree"])) == ltxt for y in b.ev[i2 + 1:i])
+                                elif b2.id != b.id:
+                                    reassigned = must_pass(f, b2.id, b.id, i, lambda y: y["k"] == "assign" and y.get("op") == "=" and y.get("lhs_tree") is not None
+                                                           and tree_text(strip_casts(y["lhs_tree"])) == ltxt and not (y is d))
+                        if reassigned:
+                            continue
+                        via = t[1].split("@")[0]
+                        t = src_tree
                 # persistent lvalue: member through a pointer, or *ptr, or array element through pointer
                 if not isinstance(t, list) or t[0] not in ("member", "un", "sub"):
                     continue
@@ -350,7 +570,7 @@ def r14_6(prog, tab, summ=None):
                             if any(n[0] == "var" and n[1] == holder_id for n in walk(at)):
                                 return True
                     return False
-                key = "free(%s)" % key_text
+                key = "free(%s)" % key_text if via is None else "free(%s = %s)" % (via, key_text)
                 bad = None
                 # index-stepping loops (free(arr[i]) for each i) reuse the lvalue text with a new index: the variable index
                 # changes, so only consider lvalues without a subscript by a variable that is modified
